@@ -38,6 +38,7 @@ pub enum BinaryRequest {
     QuitQuietly(binary::QuitRequest),
     ItemTooLarge(binary::SetRequest),
     Stats(binary::StatsRequest),
+    NotSupported(binary::Request),
 }
 
 impl BinaryRequest {
@@ -70,7 +71,8 @@ impl BinaryRequest {
 
             BinaryRequest::Noop(request)
             | BinaryRequest::Version(request)
-            | BinaryRequest::Stats(request) => &request.header,
+            | BinaryRequest::Stats(request)
+            | BinaryRequest::NotSupported(request) => &request.header,
 
             BinaryRequest::Flush(request) | BinaryRequest::FlushQuietly(request) => &request.header,
 
@@ -289,7 +291,10 @@ impl MemcacheBinaryCodec {
             | Some(binary::Command::SaslListMechs)
             | Some(binary::Command::SaslStep) => {
                 error!("Command not supported, opcode: {:?}", self.header.opcode);
-                Ok(None)
+                // answered with an error; 'no frame' would mean 'need more bytes'
+                Ok(Some(BinaryRequest::NotSupported(binary::Request {
+                    header: self.header,
+                })))
             }
 
             Some(binary::Command::OpCodeMax) => {
